@@ -387,7 +387,9 @@ theorem saveString_present {d d1 : Doc} {s : List Byte} {r : Option Nat} (h : d.
     rintro m ⟨y, hy, rfl⟩
     refine ⟨_, List.mem_map_of_mem hy, ?_⟩
     split <;> rfl
-  · generalize d.pl.alloc (s.length + d.strOverhead) = q at h
+  · split at h
+    · simp only [Prod.mk.injEq] at h; obtain ⟨_, rfl⟩ := h; exact fun m hm => hm
+    generalize d.pl.alloc (s.length + d.strOverhead) = q at h
     obtain ⟨ok, pl⟩ := q
     simp only at h
     split at h
